@@ -8,6 +8,8 @@
 //	R4  os.Stdout                    -> verifsim.Stdout()
 //	R5  time.Now                     -> verifsim.Now
 //	R6  user.Current                 -> verifsim.CurrentUser
+//	R7  ch <- v, select with a send case, go func(){...}  -> verifsim.Yield(site) inserted before
+//	    the statement (resp. first in the goroutine body): the schedule hook of the goroutine simulator
 //
 // It never touches /repo: it is pointed at directories of a scratch copy.
 package main
@@ -133,6 +135,35 @@ func doFile(p *packages.Package, f *ast.File, path string) error {
 	}
 	astutil.Apply(f, func(c *astutil.Cursor) bool {
 		switch n := c.Node().(type) {
+		case *ast.SendStmt:
+			if c.Index() >= 0 { // a statement of a block (not the comm of a select case)
+				c.InsertBefore(yieldCall(relPos(fset, n.Pos())))
+				note(&rep.Rewritten, site{"R7", relPos(fset, n.Pos()), "send", ""})
+				rep.Counts["R7"]++
+				changed = true
+			}
+		case *ast.SelectStmt:
+			hasSend := false
+			for _, cl := range n.Body.List {
+				if cc, ok := cl.(*ast.CommClause); ok {
+					if _, ok := cc.Comm.(*ast.SendStmt); ok {
+						hasSend = true
+					}
+				}
+			}
+			if hasSend && c.Index() >= 0 {
+				c.InsertBefore(yieldCall(relPos(fset, n.Pos())))
+				note(&rep.Rewritten, site{"R7", relPos(fset, n.Pos()), "select with send", ""})
+				rep.Counts["R7"]++
+				changed = true
+			}
+		case *ast.GoStmt:
+			if fl, ok := n.Call.Fun.(*ast.FuncLit); ok {
+				fl.Body.List = append([]ast.Stmt{yieldCall(relPos(fset, n.Pos()))}, fl.Body.List...)
+				note(&rep.Rewritten, site{"R7", relPos(fset, n.Pos()), "go func", ""})
+				rep.Counts["R7"]++
+				changed = true
+			}
 		case *ast.RangeStmt:
 			t := info.TypeOf(n.X)
 			if t == nil {
@@ -208,6 +239,13 @@ func doFile(p *packages.Package, f *ast.File, path string) error {
 	rel, _ := filepath.Rel(*root, path)
 	rep.Files = append(rep.Files, filepath.ToSlash(rel))
 	return os.WriteFile(path, buf.Bytes(), 0o644)
+}
+
+func yieldCall(pos string) ast.Stmt {
+	return &ast.ExprStmt{X: &ast.CallExpr{
+		Fun:  &ast.SelectorExpr{X: ast.NewIdent("verifsim"), Sel: ast.NewIdent("Yield")},
+		Args: []ast.Expr{&ast.BasicLit{Kind: token.STRING, Value: fmt.Sprintf("%q", pos)}},
+	}}
 }
 
 func identOf(e ast.Expr) *ast.Ident {
